@@ -426,6 +426,9 @@ func main() {
 			inputs = append(inputs, input{fmt.Sprintf("gen%d.go", i), []byte(genFile(rng, i, *size))})
 		}
 		inputs = append(inputs, input{"kitchensink.go", []byte(kitchenSink)})
+		// one fixed file that is nested far deeper than hand-written code (generated code is): every level must be visited
+		// (oracle only: the visits of such a file carry node paths of a few hundred entries each)
+		inputs = append(inputs, input{deepNestName, []byte(deepNest(280))})
 		for _, in := range inputs {
 			fset := token.NewFileSet()
 			f, info, err := parseLoose(fset, in.name, in.src)
@@ -435,12 +438,12 @@ func main() {
 			}
 			init0 := event{Func: -1}
 			o := observe(in.name, fset, f, info, in.src, init0, -1, true)
-			withTree := o.Nodes <= *maxNodes
+			withTree := o.Nodes <= *maxNodes && in.name != deepNestName
 			if !withTree {
 				o.Tree, o.IDs = "", nil
 			}
 			enc.Encode(o)
-			for v := 0; v < *variants && withTree; v++ {
+			for v := 0; v < *variants && (withTree || in.name == deepNestName); v++ {
 				// a walk that starts from an arbitrary context, and one whose callback panics somewhere
 				init := event{Dead: rng.Intn(2) == 0, Func: -1, Path: []int{o.Nodes + 5, o.Nodes + 6}[:rng.Intn(3)]}
 				if rng.Intn(2) == 0 {
